@@ -30,16 +30,22 @@ B11_FAMS = ["ids_mixed_none", "ids_mixed_always", "ids_mixed_shallow", "conflict
             "fe_player", "fe_conflict"]
 
 
+# back with queue_container_circular (capacity 256 set by the adapter, "sufficient" for every plan)
+BQ_FAMS = ["queue_flat", "queue_nested", "defer_basic", "storage", "nest2_mixed", "completion_chain"]
+
+
 def variants_of(family):
     v = list(FAMILY_VARIANTS.get(family, ALLV))
+    if family in BQ_FAMS and "BQ" not in v:
+        v.append("BQ")
     if family in B11_FAMS and "B11" not in v:
         v.append("B11")
     return v
 
 
 def with_b11(family, variants):
-    if variants is ALLV and family in B11_FAMS:
-        return ALLV + ["B11"]
+    if variants is ALLV:
+        return ALLV + (["B11"] if family in B11_FAMS else []) + (["BQ"] if family in BQ_FAMS else [])
     return variants
 
 
